@@ -789,7 +789,7 @@ func VerifyCallSites(P *Program, DB *ContractDB, cs *CallSitesDecl, prop string)
 				owner := fn
 				ok2 := false
 				for owner != nil {
-					if k := DB.Funcs[QualName(owner)]; k != nil && k.Kind == "func" && !k.Trusted && k.hasProp(prop) {
+					if k := DB.Funcs[QualName(owner)]; k != nil && k.Kind == "func" && !k.Trusted && (k.hasProp(prop) || callSiteImplicit[QualName(owner)]) {
 						ok2 = true
 						break
 					}
